@@ -6,6 +6,10 @@ props = [json.loads(l) for l in open(os.path.join(V, "properties.jsonl"))]
 SEQ_NOTE = ("trusted: gcc/ASan/UBSan, the reference model in seq/, the harness stubs that replace only I/O callbacks and "
             "_exit; the code under test is the real translation unit rebuilt from /repo's working tree")
 CHECKS = {
+ "C10": dict(engine="SEQ", category="exploration", design_ref="4/C10",
+             technique="exhaustive product of control-file configurations (4x256x4x2, real files read by the real getcontrols()/regetcontrols()) x 143 generated addresses through the real rewrite(), and senderadd() over a sender/recipient grid, against an independent model of qmail-send(8)/addresses(5)",
+             text="Rule precedence only shows where several rules match at once; the full subset product of a pool that contains every rule kind (user, domain, nested wildcards, catch-all, exceptions, locals, percent hack) makes every such overlap occur, and every address of the pool is routed under every configuration and compared with the model.",
+             note=SEQ_NOTE + "; the order-preserving partition of recipients into local/remote files by todo_do is observed by the VK queue scenarios, not here"),
  "C09": dict(engine="SEQ", category="exploration", design_ref="4/C09",
              technique="depth-first enumeration of the full tree of scripted SMTP server behaviours (reply classes/forms, garbage, disconnect, stall at every phase, 1-3 recipients, read-split/ahead-of-time/write-failure variants) through the real smtp()/smtpcode()/blast(), chained into the real qmail-rspawn report(); report() alone on every (status, output<=6/7 bytes)",
              text="Every server script of the bounded tree is executed against the real client code and compared with a reference verdict function, so 'never K unless recipient and message were accepted' is decided for all scripts in the bound rather than for samples; the spawner's folding routine is covered over its whole small input space.",
